@@ -13,6 +13,7 @@ From Coq Require Import List ZArith Bool.
 Import ListNotations.
 From Goat Require Import Model.Client Proofs.ClientBase Proofs.ClientInv Proofs.ClientLive Proofs.ClientLog Proofs.ClientRoute Proofs.ClientFin.
 From Goat Require Model.Server Proofs.ServerProofs Proofs.ServerInv Proofs.ServerLive Proofs.ServerRelease.
+From Goat Require Model.Sys Proofs.ProtocolClient Proofs.ClientCancel Proofs.SysRelease.
 Open Scope Z_scope.
 
 (* bounded: in EVERY reachable state the registry and the stream-loop goroutines are no more than the calls
@@ -179,3 +180,42 @@ Proof. eexists. eexists. split. vm_compute. reflexivity. vm_compute. repeat spli
 Example C14_ex_bounded : exists ls s, run_trace [ANewUnary 7 false; ANewStream false; ANewUnary 9 false; ADeliver (reply 1 8); ANewStream false; ACancel 1] = (ls, s) /\
   lrun init ls = Some s /\ registry_size s = 2%nat /\ live_loops s = 1%nat /\ live_calls s = 2%nat.
 Proof. eexists. eexists. split. vm_compute. reflexivity. vm_compute. repeat split; reflexivity. Qed.
+
+
+(* ---------- end to end: the product Model/Sys.v (client x server x two FIFO wires) ---------- *)
+(* released, in EVERY reachable state of the product and however the CLIENT ended the RPC (trailer taken, reset, its
+   context ended, a failed send): a stream handler whose goroutine has ended holds nothing on the server connection - no
+   registry entry, no goroutine, no worker, no envelope in the read loop's hands; an entry under its id belongs to
+   another, live handler. _partial: the hypothesis "the handler's goroutine has ended" cannot be dropped - the
+   application's handler is the environment of Model/Server.v and may ignore its context for ever; what the CLIENT owes
+   the server is the cancellation of that context, which is the next theorem. *)
+Theorem C14_sys_released_partial : forall pol ls s, Sys.lrun pol Sys.init ls = Some s ->
+  forall h k, nth_error (Server.hs (Sys.sv s)) h = Some k -> Server.h_pc k = Server.HDead ->
+    Server.h_reg k = false /\ Server.hs_alive k = false
+    /\ (forall w, nth_error (Server.wk (Sys.sv s)) w <> Some (Server.WkRun h))
+    /\ (forall f, Server.rd (Sys.sv s) <> Server.RdFwd h f)
+    /\ (forall g, Server.find_reg (Server.fid (Server.h_req k)) (Server.hs (Sys.sv s)) 0 = Some g ->
+          g <> h /\ exists kg, nth_error (Server.hs (Sys.sv s)) g = Some kg /\ Server.hs_alive kg = true).
+Proof. exact SysRelease.sys_released_l. Qed.
+Print Assumptions C14_sys_released_partial.
+
+(* (Q) the client's part, end to end: in every quiescent state of the product whose server read loop is at its Read,
+   after the caller's context ended on a stream that had taken no trailer, exactly ONE reset is on the wire, the context
+   of every handler registered under that id is cancelled, and a handler under that id that has returned is gone and
+   unregistered. Hypothesis no_wfail: no write fault hit the client - the write-fault case is where D-14f lived (a
+   failed SendMsg could end the stream without the reset; fixed in /repo 029d2b2) and is covered by the rig only
+   (TestC14SendFail, TestC14Long). The hypotheses are met by a concrete run: Example C07_sys_applies (Props/C07.v). *)
+Theorem C14_sys_ctx_release_Q : forall pol ls s c k,
+  Sys.lrun pol Sys.init ls = Some s ->
+  ProtocolClient.no_wfail (Sys.proj_c pol Sys.init ls) -> ProtocolClient.api_ok (Sys.proj_c pol Sys.init ls) ->
+  Sys.quiescent s = true -> Server.rd (Sys.sv s) = Server.RdRead ->
+  nth_error (calls (Sys.cl s)) c = Some k -> k_pc k = POpen -> sctx_done k = true -> ProtocolClient.is_ctx_err (s_rerr k) = true ->
+  l_hastrl k = false -> l_abort k = false ->
+  ProtocolClient.nrst (ProtocolClient.projE (k_id k) (map Server.f_env (Sys.sent_c2s s))) = 1%nat /\
+  (forall h kh, nth_error (Server.hs (Sys.sv s)) h = Some kh -> Server.h_reg kh = true ->
+                Server.fid (Server.h_req kh) = k_id k -> Server.hdone (Sys.sv s) kh = true) /\
+  (forall h kh, nth_error (Server.hs (Sys.sv s)) h = Some kh -> Server.fid (Server.h_req kh) = k_id k ->
+                Server.h_returned kh = true -> Server.wblock (Sys.sv s) = false \/ Server.hctx_done (Sys.sv s) = true ->
+                Server.h_pc kh = Server.HDead /\ Server.h_reg kh = false).
+Proof. exact SysRelease.sys_ctx_release_Q_l. Qed.
+Print Assumptions C14_sys_ctx_release_Q.
